@@ -65,6 +65,7 @@ class RecConn(AsyncFIXConnection):
 
     async def on_message(self, msg):
         self.EV.append("on_message")
+        self.ops.append("hook:on_message")
         self.A.append(msg.get(34, None))
 
     async def on_connect(self):
